@@ -291,6 +291,8 @@ def main(argv=None):
     if args.only:
         obs = [o for o in obs if args.only in o.name]
     known, fixed = load_known(prop)
+    import shutil
+    shutil.rmtree(os.path.join(VERIF, 'replays', prop), ignore_errors=True)
     results = run_pool(obs, prop, known, args.jobs)
 
     exit_code = EXIT_OK
